@@ -702,7 +702,7 @@ func (x *exec) unbox(st *State, pay Term, t types.Type) Val {
 		ts := make([]Term, 4)
 		for i, l := range ls {
 			ts[i] = Select(x.getHeap(st, heapKey(t, l.Path), ArrSort(SInt, l.Sort)), pay)
-			x.assumeLeaf(st, l, ts[i])
+			x.assumeLeafOwned(st, l, ts[i], pay)
 		}
 		return &SliceV{ts[0], ts[1], ts[2], ts[3]}
 	case *types.Signature:
